@@ -22,4 +22,12 @@ let () =
     | _ -> raise (Bad "arity"));
   register "c12_pubkey_of_key" (function [p; a; b; n; g; key] ->
       of_result (fun x -> VB x) (Model.c12_pubkey_of_key (vi p) (vi a) (vi b) (vi n) (vpoint g) (vb key))
+    | _ -> raise (Bad "arity"));
+  register "c12_point_scalar_mul" (function [p; a; k; pt] ->
+      of_result (function None -> VNone | Some (x, y) -> VT [VI x; VI y])
+        (Model.c12_point_scalar_mul (vi p) (vi a) (vi k) (vpoint pt))
+    | _ -> raise (Bad "arity"));
+  register "c12_ecdsa_verify" (function [p; a; b; n; g; r; s; q; z] ->
+      of_result (fun x -> VBool x)
+        (Model.c12_ecdsa_verify (vi p) (vi a) (vi b) (vi n) (vpoint g) (vi r) (vi s) (vpoint q) (vi z))
     | _ -> raise (Bad "arity"))
